@@ -1,8 +1,8 @@
 package c04deque
 
 import (
-	"math"
 	"fmt"
+	"math"
 	"testing"
 	"time"
 
